@@ -159,7 +159,8 @@ func newPackage(program *loader.Program, pkgInfo *loader.PackageInfo, plugins []
 				}
 				changed = true
 				log.Printf("changing function call name from %s to %s", call.Name, name)
-				call.Expr.Fun = ast.NewIdent(name)
+				// keep the position of the identifier, otherwise line breaks before the call are lost.
+				call.Expr.Fun = &ast.Ident{NamePos: call.Expr.Fun.Pos(), Name: name}
 			}
 		}
 
